@@ -153,6 +153,9 @@ def generate(rng, tier, n):
     while len(cases) < n:
         t, st = gen_tree(rng, max_nodes=rng.choice([8, 20, 40]), max_depth=rng.choice([3, 5]),
                          single_rate=rng.choice([0.1, 0.3]))
+        if cid == 4:
+            from ..solvers import needle_tree
+            t, st = needle_tree(rng, rng.choice([65, 70, 130]), pl=rng.choice([1, 2]))     # wider than a machine word
         for _ in range(4):
             base = random_named(rng, t)
             cand, tags = mutate(rng, t, base)
